@@ -113,13 +113,15 @@ Section Proofs.
   Variable t0 : tset.
   Variable tsrc : Type.
   Variable parse : tset -> string -> tsrc -> option tset.
-  Variable exec : tset -> string -> tsrc -> option string.
+  Variable vstate : Type.
+  Variable v0 : vstate.
+  Variable exec : tset -> vstate -> string -> tsrc -> option (string * vstate).
   Variable split : string -> list string.
   Variable head_of : string -> option head.
 
-  Notation engine_render := (engine_render tset t0 tsrc parse exec).
+  Notation engine_render := (engine_render tset t0 tsrc parse vstate v0 exec).
   Notation render_resources := (render_resources split head_of).
-  Notation pipeline := (pipeline tset t0 tsrc parse exec split head_of).
+  Notation pipeline := (pipeline tset t0 tsrc parse vstate v0 exec split head_of).
 
   (* ---- engine.render ---- *)
 
@@ -130,11 +132,13 @@ Section Proofs.
     rewrite <- H. destruct (aget k l); auto. destruct (parse t k t1); auto.
   Qed.
 
-  Lemma exec_all_ext t keys (l l' : list (string * tsrc)) :
-    (forall k, aget k l = aget k l') -> exec_all tset tsrc exec t keys l = exec_all tset tsrc exec t keys l'.
+  Lemma exec_all_ext t st keys (l l' : list (string * tsrc)) :
+    (forall k, aget k l = aget k l') ->
+    exec_all tset tsrc vstate exec t st keys l = exec_all tset tsrc vstate exec t st keys l'.
   Proof.
-    intros H. induction keys as [|k rest IH]; simpl; auto.
-    rewrite <- H, IH. reflexivity.
+    intros H. revert st. induction keys as [|k rest IH]; intros st; simpl; auto.
+    rewrite <- H. destruct (is_partial k); auto.
+    destruct (aget k l); auto. destruct (exec t st k t1) as [[s st']|]; auto. now rewrite IH.
   Qed.
 
   Lemma engine_render_perm (l l' : list (string * tsrc)) :
@@ -145,21 +149,21 @@ Section Proofs.
     pose proof (aget_perm l l' Hnd Hp) as Hg.
     rewrite (parse_all_ext _ _ l l' Hg).
     destruct (parse_all tset tsrc parse t0 (sort_templates (map fst l')) l'); auto.
-    now rewrite (exec_all_ext _ _ l l' Hg).
+    now rewrite (exec_all_ext _ _ _ l l' Hg).
   Qed.
 
   (* the rendered map has unique keys: they are a subsequence of the sorted template keys *)
-  Lemma exec_all_keys t keys (l : list (string * tsrc)) m :
-    exec_all tset tsrc exec t keys l = inl m -> NoDup keys -> NoDup (map fst m) /\ incl (map fst m) keys.
+  Lemma exec_all_keys t st keys (l : list (string * tsrc)) m :
+    exec_all tset tsrc vstate exec t st keys l = inl m -> NoDup keys -> NoDup (map fst m) /\ incl (map fst m) keys.
   Proof.
-    revert m. induction keys as [|k rest IH]; simpl; intros m H Hnd.
+    revert st m. induction keys as [|k rest IH]; simpl; intros st m H Hnd.
     - inversion H. subst. split; [constructor|apply incl_refl].
     - inversion Hnd as [|? ? Hni Hnd']; subst.
       destruct (is_partial k).
-      + destruct (IH m H Hnd') as [H1 H2]. split; auto. now apply incl_tl.
-      + destruct (aget k l); [|discriminate]. destruct (exec t k t1); [|discriminate].
-        destruct (exec_all tset tsrc exec t rest l) as [m'|] eqn:E; [|discriminate].
-        inversion H; subst. destruct (IH m' eq_refl Hnd') as [H1 H2]. simpl. split.
+      + destruct (IH st m H Hnd') as [H1 H2]. split; auto. now apply incl_tl.
+      + destruct (aget k l); [|discriminate]. destruct (exec t st k t1) as [[s st']|]; [|discriminate].
+        destruct (exec_all tset tsrc vstate exec t st' rest l) as [m'|] eqn:E; [|discriminate].
+        inversion H; subst. destruct (IH st' m' E Hnd') as [H1 H2]. simpl. split.
         * constructor; auto.
         * apply incl_cons; [now left|now apply incl_tl].
   Qed.
@@ -169,7 +173,7 @@ Section Proofs.
   Proof.
     unfold Pipeline.engine_render. intros Hnd H.
     destruct (parse_all tset tsrc parse t0 (sort_templates (map fst l)) l); [|discriminate].
-    destruct (exec_all tset tsrc exec t (sort_templates (map fst l)) l) eqn:E; [|discriminate].
+    destruct (exec_all tset tsrc vstate exec t v0 (sort_templates (map fst l)) l) eqn:E; [|discriminate].
     inversion H; subst. eapply exec_all_keys; eauto.
     eapply Permutation_NoDup; [apply Permutation_sym, isort_perm|exact Hnd].
   Qed.
@@ -301,3 +305,32 @@ Proof.
   - apply perm_swap.
   - vm_compute. discriminate.
 Qed.
+
+(* Why the execution order is part of the model: with templates that write to the shared
+   values (here every file appends its name to a trace and prints the trace), executing the
+   files while ranging over the map gives different rendered files for two iteration orders,
+   even after sorting the result by key.  The real code executes in sortTemplates order. *)
+Definition trace_exec (_ : unit) (st : string) (name : string) (_ : unit) : option (string * string) :=
+  let st' := (st ++ name ++ ";")%string in Some (st', st').
+
+Lemma exec_map_order_refuted :
+  exists l l' : list (string * unit), NoDup (map fst l) /\ Permutation l l' /\
+    forall m m',
+      engine_render_exec_in_map_order unit tt unit (fun t _ _ => Some t) string EmptyString trace_exec l = inl m ->
+      engine_render_exec_in_map_order unit tt unit (fun t _ _ => Some t) string EmptyString trace_exec l' = inl m' ->
+      aget "c/templates/a.yaml" m <> aget "c/templates/a.yaml" m'.
+Proof.
+  exists [("c/templates/a.yaml", tt); ("c/templates/b.yaml", tt)], [("c/templates/b.yaml", tt); ("c/templates/a.yaml", tt)].
+  split; [|split].
+  - repeat constructor; simpl; intuition discriminate.
+  - apply perm_swap.
+  - intros m m' H H'. vm_compute in H, H'. inversion H; inversion H'; subst. vm_compute. discriminate.
+Qed.
+
+(* the same stateful engine under the real order: both iteration orders agree *)
+Example exec_sorted_order_witness :
+  engine_render unit tt unit (fun t _ _ => Some t) string EmptyString trace_exec
+                [("c/templates/a.yaml", tt); ("c/templates/b.yaml", tt)]
+  = engine_render unit tt unit (fun t _ _ => Some t) string EmptyString trace_exec
+                [("c/templates/b.yaml", tt); ("c/templates/a.yaml", tt)].
+Proof. vm_compute. reflexivity. Qed.
